@@ -20,7 +20,8 @@ OPS = {"+": operator.add, "-": operator.sub, "*": operator.mul, "//": operator.f
        "/": operator.truediv}
 CMPS = {"<": operator.lt, "<=": operator.le, ">": operator.gt, ">=": operator.ge,
         "==": operator.eq, "!=": operator.ne, "is": operator.is_,
-        "is not": operator.is_not}
+        "is not": operator.is_not, "in": lambda a, b: a in b,
+        "not in": lambda a, b: a not in b}
 
 
 def evaluate(t, env: dict, globals_: dict | None = None, funcs: dict | None = None):
@@ -68,6 +69,9 @@ def evaluate(t, env: dict, globals_: dict | None = None, funcs: dict | None = No
             if v:
                 return v
         return r
+    if tag in ("tuple", "list", "set") and len(t) == 2:
+        vals = [evaluate(x, env, globals_, funcs) for x in t[1]]
+        return {"tuple": tuple, "list": list, "set": set}[tag](vals)
     if tag == "ifexp":
         return evaluate(t[2] if evaluate(t[1], env, globals_, funcs) else t[3],
                         env, globals_, funcs)
